@@ -9,6 +9,7 @@ Name(s, k) == [stem |-> s, k |-> k]
 MC_GeoX == {0, 1, 3}
 MC_GeoY == {1, 2}
 MC_GeoYThorough == {0, 1, 3}
+MC_GeoXThorough == {-1, 0, 1, 3}
 MC_GeoDrag == {-1, 2}
 MC_GeoNames == {}
 (* 2-D "order" model (<= 3 shapes of all kinds: document order, deletion in the middle) *)
